@@ -30,9 +30,10 @@ MANIFEST = {
              "(classes, uids, attributes, ordered links / ends / members, sharing, BFS order, graph untouched by dumps), "
              "fresh-interpreter loads with caching on and off for a sample, and a 3000-deep chain under recursion limit 500.",
     "note": "Outside the solver-decided claim: the correctness of pickle/dill themselves and the real byte stream (only "
-            "replayed), graphs beyond the bound, pickle-specific memo reads after children are saved. Assumed: action "
+            "replayed), graphs beyond the bound. Assumed in the main configurations: action "
             "programs are well-founded (an object saves an object of smaller-or-equal index only after its own memoize), "
-            "as pickle does for every container. The usability of a copy whose __init__ never ran is decided in C05 "
+            "as pickle does for lists, dicts and instances; the 'late_memo' configuration drops this (tuples and by-value "
+            "classes memoise after their children) and exhibits known finding C10-KF1. The usability of a copy whose __init__ never ran is decided in C05 "
             "(missing statistics record). Trusted: pysym (validated per path by running the REAL nrpickler module "
             "natively over the same abstract base class), z3.",
     "design_ref": "DESIGN.md 5 (C10)",
@@ -43,7 +44,7 @@ BOUNDS = {"quick": {"objects": "2x3, 3x2 actions", "chain_lengths": "2..7", "rou
 TIME_BUDGET = {"quick": 400, "thorough": 1200}
 STUBS = ["dill.Pickler -> abstract recursive pickler over symbolic action programs (harness source, also used natively "
          "under the real nrpickler module)", "pickle / io -> real modules (constants only)"]
-ASSUMPTIONS = ["well-founded action programs", "real byte-level round trips are replays, not proofs"]
+ASSUMPTIONS = ["abstract objects are instance-like (memoize, then children) or tuple-like (children, recursion check, memoize)", "real byte-level round trips are replays, not proofs"]
 EXPLANATION = "queue discipline vs recursive reference over symbolic object programs; real round trips replayed per witness"
 
 STUB_SRC = '''
@@ -73,12 +74,19 @@ class Pickler:
                 self.write(("W", obj, act[2]))
             elif kind == 1:
                 self.save(act[1])
-            else:
+            elif kind == 2:
                 self.memoize(obj)
+            else:
+                # how pickle finishes a tuple (dill: a by-value class): if saving the elements already memoised
+                # it (a recursive structure), discard and fetch it; otherwise emit it and memoise it now
+                if obj in self.memo:
+                    self.write(("POPGET", self.memo[obj]))
+                else:
+                    self.write(("TUPLE", obj))
+                    self.memoize(obj)
 
     def memoize(self, obj):
-        if obj in self.memo:
-            return
+        assert obj not in self.memo        # as pickle.Pickler.memoize does
         idx = len(self.memo)
         self.write(("PUT", idx))
         self.memo[obj] = idx
@@ -105,7 +113,11 @@ for o, prog in programs:
     PROGRAMS[o] = prog
 root = programs[0][0]
 f1 = File()
-Pickler(f1, protocol=proto).dump(root)
+ref_raised = None
+try:
+    Pickler(f1, protocol=proto).dump(root)
+except Exception as exc:
+    ref_raised = type(exc).__name__
 ref = f1.tokens
 f2 = File()
 raised = None
@@ -114,7 +126,7 @@ try:
 except Exception as exc:
     raised = type(exc).__name__
 got = f2.tokens
-same = (raised is None) and (len(got) == len(ref)) and (got[1:-1] == ref[1:-1])
+same = (raised is None) and (ref_raised is None) and (len(got) == len(ref)) and (got[1:-1] == ref[1:-1])
 '''
 
 PROG_DEPTH = '''
@@ -157,7 +169,10 @@ LEAF = b"leaf"
 
 def configs(tier):
     out = [{"mode": "stream", "nobj": 2, "nact": 3}, {"mode": "stream", "nobj": 3, "nact": 2},
-           {"mode": "stream", "nobj": 2, "nact": 3, "leaf": True}]
+           {"mode": "stream", "nobj": 2, "nact": 3, "leaf": True},
+           # objects that memoise themselves after their children (tuples, by-value classes): known finding C10-KF1
+           {"mode": "stream", "nobj": 2 if tier == "quick" else 3, "nact": 3, "late_memo": True},
+           {"mode": "kf_tuple"}, {"mode": "kf_byvalue"}]
     if tier != "quick":
         out.append({"mode": "stream", "nobj": 3, "nact": 3})
     out.append({"mode": "depth", "lengths": [2, 3, 5, 7] if tier == "quick" else [2, 3, 5, 7, 9]})
@@ -187,29 +202,46 @@ print(json.dumps(out))
 
 
 def _describe(objs):
-    """structure of a graph by uid: classes, attributes, ordered lists, sharing"""
+    """structure of a graph by position in the reachability order: classes, uids, attributes (instance dict and
+    __slots__), ordered lists, sharing"""
+    pos = {id(o): i for i, o in enumerate(objs)}
+
+    def ref(x):
+        if x is None or isinstance(x, (int, str, bool)):
+            return repr(x)
+        return "#%s" % pos.get(id(x), "?")
     out = []
     for o in objs:
         d = {"cls": type(o).__module__ + "." + type(o).__qualname__, "uid": o.uid}
         for f in ("_links", "_vertices", "_universes"):
             if f in o.__dict__:
-                d[f] = [None if x is None else x.uid for x in o.__dict__[f]]
+                d[f] = [ref(x) for x in o.__dict__[f]]
         d["attrs"] = sorted((k, repr(v)) for k, v in o.__dict__.items()
                             if not k.startswith("_") and isinstance(v, (int, str, bool, type(None))))
+        slots = []
+        for c in type(o).__mro__:
+            for sl in getattr(c, "__slots__", ()):
+                slots.append((sl, ref(getattr(o, sl, None))))
+        d["slots"] = slots
         out.append(d)
     return out
 
 
 def _reach(u):
+    """objects reachable from u through the association lists and slots, in a deterministic traversal order
+    (no uid is read here: a uid that only springs into existence when read must not be masked)"""
     seen, work = [], [u]
     while work:
-        x = work.pop()
-        if x is None or any(x is s for s in seen):
+        x = work.pop(0)
+        if x is None or isinstance(x, (int, str, bool)) or any(x is s for s in seen):
             continue
         seen.append(x)
         for f in ("_links", "_vertices", "_universes"):
-            work.extend(x.__dict__.get(f, []))
-    return sorted(seen, key=lambda o: o.uid)
+            work.extend(getattr(x, "__dict__", {}).get(f, []))
+        for c in type(x).__mro__:
+            for sl in getattr(c, "__slots__", ()):
+                work.append(getattr(x, sl, None))
+    return seen
 
 
 def native_roundtrip(B, U, verts, sample_fresh):
@@ -227,20 +259,26 @@ def native_roundtrip(B, U, verts, sample_fresh):
                 except Exception:
                     pass
         objs = _reach(U)
-        before = _describe(objs)
         vars_before = [sorted(o.__dict__) for o in objs]
+        lists_before = [[list(o.__dict__.get(f, [])) for f in ("_links", "_vertices", "_universes")] for o in objs]
         ok = True
         why = ""
+        first_data = None
         for proto in range(0, 6):
+            if proto < 2 and any(hasattr(type(o), "__slots__") and "__dict__" in dir(o) and type(o).__name__ == "SlotVertex" for o in objs):
+                continue        # CPython refuses to pickle slotted classes under protocols 0 and 1
             try:
+                # dump FIRST, describe afterwards: nothing of the original is read before it is serialised
                 data = nrpickler.dumps(U, protocol=proto)
                 copy = pickle.loads(data)
+                copy2 = pickle.loads(data)
             except Exception as exc:        # noqa
                 ok, why = False, f"proto {proto}: {type(exc).__name__}: {exc}"
                 break
+            before = _describe(objs)
             cobjs = _reach(copy)
-            if _describe(cobjs) != before:
-                ok, why = False, f"proto {proto}: structure differs"
+            if _describe(cobjs) != before or _describe(_reach(copy2)) != before:
+                ok, why = False, f"proto {proto}: structure / uids / attributes differ"
                 break
             if any(any(c is o for o in objs) for c in cobjs):
                 ok, why = False, f"proto {proto}: copy shares an object with the original"
@@ -259,7 +297,8 @@ def native_roundtrip(B, U, verts, sample_fresh):
         B.prove(f"[native replay] real nrpickler.dumps -> pickle.loads is an isomorphic detached copy, protocols 0-5 "
                 f"(warm cache: {warm}) {why}", ok)
         B.prove("[native replay] nrpickler.dumps leaves the graph unchanged",
-                _describe(_reach(U)) == before and [sorted(o.__dict__) for o in objs] == vars_before)
+                [sorted(o.__dict__) for o in objs] == vars_before and
+                [[list(o.__dict__.get(f, [])) for f in ("_links", "_vertices", "_universes")] for o in objs] == lists_before)
     Vertex.NEIGHBOR_CACHING = False
     if sample_fresh and len(U.vertices) > 0:
         root = os.environ.get("EDGEGRAPH_ROOT", "/repo")
@@ -320,7 +359,55 @@ def native_bigchain(B):
     B.prove(f"[native replay] a 3000-vertex chain is dumped under recursion limit 500 and loads back {why}", ok)
 
 
+KF_BYVALUE = r'''
+import sys
+from edgegraph.structure import Vertex
+from edgegraph.output import nrpickler
+class City(Vertex):
+    def __init__(self, **kw):
+        super().__init__(**kw)
+data = nrpickler.dumps(City())
+import dill
+print(type(dill.loads(data)).__name__)
+'''
+
+
+def native_kf_tuple(B):
+    import pickle
+    from edgegraph.output import nrpickler
+    from edgegraph.structure import Vertex, Universe
+    v, w = Vertex(), Vertex()
+    u = Universe(vertices=[v, w])
+    t = (w,)
+    v.t = t
+    w.back = t
+    ok, why = True, ""
+    try:
+        c = pickle.loads(nrpickler.dumps(u))
+        ok = c.vertices[0].t is c.vertices[1].back
+    except Exception as exc:
+        ok, why = False, type(exc).__name__
+    B.prove(f"[native replay] a tuple attribute shared between a vertex and a vertex it contains survives the round trip {why}", ok)
+
+
+def native_kf_byvalue(B):
+    root = os.environ.get("EDGEGRAPH_ROOT", "/repo")
+    env = dict(os.environ)
+    env["PYTHONPATH"] = root
+    try:
+        r = subprocess.run([sys.executable, "-c", KF_BYVALUE], env=env, capture_output=True, text=True, timeout=30)
+        ok, why = (r.returncode == 0 and r.stdout.strip() == "City"), (r.stderr.strip().splitlines() or [""])[-1]
+    except subprocess.TimeoutExpired:
+        ok, why = False, "no result after 30 s"
+    B.prove(f"[native replay] an instance of a by-value (__main__) Vertex subclass using zero-argument super() is dumped {why}", ok)
+
+
 def scenario(B, p):
+    if p["mode"] in ("kf_tuple", "kf_byvalue"):
+        B.reach("roundtrip")
+        B.prove("(solver side: nothing to decide; the obligation is the native replay)", True)
+        B.native_only(native_kf_tuple if p["mode"] == "kf_tuple" else native_kf_byvalue)
+        return
     if p["mode"] == "stream":
         nobj, nact = p["nobj"], p["nact"]
         env = B.with_fake_dill(STUB_SRC)
@@ -332,6 +419,7 @@ def scenario(B, p):
                 r = B.ite(B.is_(x, nd), i, r)
             return r
         programs = []
+        late_edges = []
         for o in range(nobj):
             acts = []
             kinds = []
@@ -344,14 +432,46 @@ def scenario(B, p):
                     B.assume(B.eq(kind, 1), "leaf child is saved")
                 else:
                     child = B.ref(f"c{o}_{j}", nodes)
-                    # well-founded programs: saving an object of index <= own needs an earlier memoize of oneself
                     earlier = B.or_(*[B.eq(k2, 2) for k2 in kinds]) if kinds else False
-                    B.assume(B.implies(B.eq(kind, 1), B.or_(B.lt(o, rank(child)), earlier)), "well-founded")
+                    if p.get("late_memo"):
+                        pass
+                    else:
+                        # instance-like programs: an object saves children only after it memoised itself (what pickle
+                        # does for lists, dicts and instances).  Objects that are memoised AFTER their children (tuples,
+                        # by-value classes) are modelled faithfully - including pickle's recursion check - in the
+                        # late_memo configuration only.
+                        B.assume(B.implies(B.eq(kind, 1), earlier), "instance-like: memoize before children")
+                # an object memoises itself at most once (pickle asserts this)
+                if kinds:
+                    B.assume(B.implies(B.eq(kind, 2), B.not_(B.or_(*[B.eq(k2, 2) for k2 in kinds]))), "single memoize")
                 kinds.append(kind)
                 acts.append(B.mktuple([kind, child, B.int(f"w{o}_{j}", 0, 1)]))
             programs.append(B.mktuple([nodes[o], B.symlist(acts, n)]))
         if p.get("leaf"):
             programs.append(B.mktuple([LEAF, B.mklist([B.mktuple([0, None, 5]), B.mktuple([2, None, 0])])]))
+        if p.get("late_memo"):
+            # Faithful shapes: an INSTANCE-like object memoises itself first and then writes / saves anything
+            # (cycles and sharing allowed); a TUPLE-like object saves its elements first and is finished (and
+            # memoised) afterwards - its elements may be any instance-like object, or a tuple-like object of
+            # higher index (a tuple cannot contain itself without an intermediate instance).
+            programs = []
+            tuple_like = [B.choice(f"tuple_like{o}", 2) == 1 for o in range(nobj)]
+            for o in range(nobj):
+                acts = []
+                for j in range(nact - 1):
+                    kind = B.int(f"k{o}_{j}", 0, 1)
+                    child = B.ref(f"c{o}_{j}", nodes)
+                    if tuple_like[o]:
+                        for o2 in range(nobj):
+                            if tuple_like[o2] and o2 <= o:
+                                B.assume(B.implies(B.eq(kind, 1), B.not_(B.is_(child, nodes[o2]))), "tuples nest upwards")
+                    acts.append(B.mktuple([kind, child, B.int(f"w{o}_{j}", 0, 1)]))
+                n = B.int(f"n{o}", 0, nact - 1)
+                body = B.items(B.symlist(acts, n))
+                if tuple_like[o]:
+                    programs.append(B.mktuple([nodes[o], B.mklist(body + [B.mktuple([3, None, 0])])]))
+                else:
+                    programs.append(B.mktuple([nodes[o], B.mklist([B.mktuple([2, None, 0])] + body)]))
         env["programs"] = B.mklist(programs)
         env["proto"] = 2 + B.choice("proto", 4)
         out = B.run(PROG_STREAM, env)
@@ -373,7 +493,9 @@ def scenario(B, p):
         B.prove("(solver side: nothing to decide; the obligation is the native replay)", True)
         B.native_only(native_bigchain)
         return
-    verts = make_vertices(B, 3, ["Vertex", "SubVertex", "Vertex"])
+    verts = make_vertices(B, 3, ["Vertex", "SubVertex", "SlotVertex"])
+    B.set_attr(verts[2], "payload", 5)
+    B.set_attr(verts[2], "peer", verts[0])
     links = make_links(B, p["classes"])
     n = len(links)
     symbolic_assoc_state(B, verts, links, n, n, two_ended_wellformed=True)
